@@ -4,13 +4,16 @@
   unknown ids, collector ticks, scripted write failures, SetRTO, Close) of any length over any number of ids.
   `totalCalls h` counts the invocations of handler `h` in the whole history; `pend h` whether it is still registered.
 
-  Full statement of the property for reference (NOT proved, false on the unchanged tree — known finding F6):
-    every successful Start's handler is invoked exactly once, with a closed error if the client is closed first.
-  What is proved: at most once always; never without / before its Start; exactly once OR still registered
-  (`invoked_xor_pending`) — the gap to the full statement is exactly "still registered after Close" (F6).
-  Interleavings inside one operation are outside L1 (known finding K1).
+  The full statement — every successful Start's handler is invoked exactly once, with a closed error if the client is
+  closed first — is `exactly_once_by_close`. It was false on the pinned tree (F6: `handleAgentCallback` returned early
+  on a closed client, so the closed events of `Agent.Close` were dropped and `Do` hung); the repaired client completes
+  them, and the proof rests on `tables_synchronised` (Proofs/ClientSync.lean): everything registered with the client
+  is registered with the agent, so `Agent.Close` reports every transaction in flight.
+  Also proved: at most once always; never without / before its Start; any error of Start registers nothing.
+  Interleavings inside one operation are L2 (Properties/C10L2.lean; known finding F12).
 -/
 import Stun.Proofs.ClientHistory
+import Stun.Proofs.ClientSync
 namespace Stun.C10
 open Stun Stun.Client Stun.ClientProofs
 
@@ -41,6 +44,58 @@ theorem start_error_not_registered (c : Client) (hi : TInv c) (id : TID) (raw : 
   intro h'
   exact ⟨a7 herr h', a3 h'⟩
 
+/-- whatever error `Start` returns — client closed, duplicate id, the agent refusing the transaction, a write error —
+    nothing stays registered and no handler is invoked by the call: with a fresh handler, "if Start returns an error
+    the handler is never invoked" (in L1; the L2 exception is known finding F12) -/
+theorem start_error_never_registers (c : Client) (hi : TInv c) (id : TID) (raw : Bytes) (h : Nat)
+    (herr : (c.start id raw (some h)).2.1 ≠ none) :
+    ∀ h', pend h' (c.start id raw (some h)).1 = pend h' c ∧ calls h' (c.start id raw (some h)).2.2 = 0 := by
+  obtain ⟨_, _, a3, _, _, _, _, _, _⟩ :=
+    start_spec (c.t.map (fun p => (p.2.h, p.2.id, p.2.raw))) c hi (fun p hp => List.mem_map.mpr ⟨p, hp, rfl⟩) id raw h
+  intro h'
+  refine ⟨?_, a3 h'⟩
+  revert herr
+  unfold Client.start
+  by_cases hc : c.closed = true
+  · rw [if_pos hc]; intro _; rfl
+  · rw [if_neg hc]
+    simp only
+    by_cases hex : (c.lookup id).isSome = true
+    · rw [if_pos hex]; intro _; rfl
+    · rw [if_neg hex]
+      have hk : id ∉ ckeys c := by rw [← lookup_iff]; exact hex
+      have hi1 := tinv_insert c ⟨id, 0, c.rto, raw, h, c.now⟩ hi hk
+      have hp1 := pend_insert c ⟨id, 0, c.rto, raw, h, c.now⟩ h'
+      have hl1 : (c.insert ⟨id, 0, c.rto, raw, h, c.now⟩).lookup id = some ⟨id, 0, c.rto, raw, h, c.now⟩ :=
+        lookup_insert_self c ⟨id, 0, c.rto, raw, h, c.now⟩ hk
+      generalize hc1 : c.insert ⟨id, 0, c.rto, raw, h, c.now⟩ = c1 at *
+      cases hs : (c1.agent.start id (nextTimeout ⟨id, 0, c.rto, raw, h, c.now⟩ c.now)) with
+      | mk a err =>
+        cases err with
+        | some er =>
+          simp only
+          intro _
+          have e1 := pend_erase c1 hi1 id _ hl1 h'
+          simp only at e1 hp1
+          omega
+        | none =>
+          simp only
+          generalize hc2 : ({ c1 with agent := a } : Client) = c2
+          have ht2 : c2.t = c1.t := by subst hc2; rfl
+          have htw : (c2.connWrite raw).1.t = c1.t := by rw [connWrite_t c2 raw, ht2]
+          by_cases hok : (c2.connWrite raw).2 = true
+          · simp only [hok, if_true]; intro hh; exact absurd rfl hh
+          · simp only [hok, Bool.false_eq_true, if_false]
+            intro _
+            have hi3 := tinv_congr c1 _ htw hi1
+            have hl3 : (c2.connWrite raw).1.lookup id = some ⟨id, 0, c.rto, raw, h, c.now⟩ := by
+              unfold Client.lookup; rw [htw]; exact hl1
+            have e1 := pend_erase _ hi3 id _ hl3 h'
+            have e3 := pend_congr c1 _ htw h'
+            simp only at e1 hp1
+            show pend h' ((c2.connWrite raw).1.erase id) = pend h' c
+            omega
+
 /-- after a successful `Start` with a fresh handler, in every continuation that does not reuse the handler:
     (invocations of the handler) + (still registered) = 1 — invoked exactly once, or still waiting.
     (A registration that is still there after `Close` is the known finding F6.) -/
@@ -55,9 +110,53 @@ theorem invoked_xor_pending (c : Client) (hi : TInv c) (id : TID) (raw : Bytes) 
   simp only [beq_self_eq_true, if_true] at e2
   omega
 
-/-- once the client is closed nothing is invoked any more (so a registration that survives `Close` stays) -/
-theorem closed_no_invocation (c : Client) (hc : c.closed = true) (id : TID) (e : CEv) : c.callback id e = (c, []) :=
+/-- a closed client never retransmits and never uses the fallback handler: an event either finds no transaction (and
+    is dropped) or completes the one it finds — this is how `Close` completes the transactions in flight -/
+theorem closed_callback (c : Client) (hc : c.closed = true) (id : TID) (e : CEv) :
+    c.callback id e = match c.lookup id with
+      | none => (c, [])
+      | some tx => (c.erase id, [.call tx.h id e]) :=
   callback_closed c id e hc
+
+theorem startCount_append_close (h : Nat) (ops : List COp) : startCount h (ops ++ [.close]) = startCount h ops := by
+  induction ops with
+  | nil => rfl
+  | cons op r ih =>
+    unfold startCount at ih ⊢
+    rw [List.cons_append, startsOf_cons op (r ++ [COp.close]), startsOf_cons op r, List.filter_append, List.filter_append,
+      List.length_append, List.length_append, ih]
+
+/-- in every reachable state the client's table is a subset of the agent's: whatever is registered with the client
+    will get an event from the agent (a response, a timeout, or the closed event of `Close`) -/
+theorem tables_synchronised (ops : List COp) : Sync (run {} ops).1 :=
+  (run_sinv ops [] {} inv_init (by intro p hp; simp at hp) sinv_init).sync
+
+/-- when `Close` returns, no transaction is registered any more — in every history -/
+theorem close_leaves_nothing_registered (ops : List COp) : (run {} (ops ++ [.close])).1.t = [] :=
+  close_leaves_nothing [] {} inv_init (by intro p hp; simp at hp) sinv_init ops
+
+/-- THE FULL STATEMENT (L1): after any history `pre`, a `Start` with a fresh handler that returns nil, any
+    continuation `rest` that does not reuse the handler, and `Close`: the handler has been invoked EXACTLY ONCE when
+    `Close` returns — by its response, a timeout after the last attempt, a write error, or ErrAgentClosed from `Close`
+    itself. (It is never invoked again afterwards: `handler_at_most_once`, `C15.no_output_after_close`.)
+    This was false on the pinned tree (F6: Close dropped the closed events) and holds for the repaired client. -/
+theorem exactly_once_by_close (pre rest : List COp) (id : TID) (raw : Bytes) (h : Nat)
+    (hfresh : pend h (run {} pre).1 = 0)
+    (hok : ((run {} pre).1.start id raw (some h)).2.1 = none)
+    (hno : startCount h rest = 0) :
+    totalCalls h (run ((run {} pre).1.start id raw (some h)).1 (rest ++ [.close])).2 = 1 := by
+  obtain ⟨hi, hf, _⟩ := run_spec pre [] {} inv_init (by intro p hp; simp at hp)
+  have hs := run_sinv pre [] {} inv_init (by intro p hp; simp at hp) sinv_init
+  have key := invoked_xor_pending (run {} pre).1 hi id raw h hfresh hok (rest ++ [.close])
+    (by rw [startCount_append_close]; exact hno)
+  obtain ⟨s1, s2, _⟩ := step_spec _ (run {} pre).1 hi hf (.start id raw (some h))
+  have hs' := step_sinv _ (run {} pre).1 hi hf hs (.start id raw (some h))
+  have ht := close_leaves_nothing _ ((run {} pre).1.step (.start id raw (some h))).1 s1 s2 hs' rest
+  have hp : pend h (run ((run {} pre).1.start id raw (some h)).1 (rest ++ [.close])).1 = 0 := by
+    have e : ((run {} pre).1.step (.start id raw (some h))).1 = ((run {} pre).1.start id raw (some h)).1 := rfl
+    rw [e] at ht
+    unfold pend; rw [ht]; rfl
+  omega
 
 -- non-vacuity: a history with a response for a started transaction invokes its handler once
 example : startCount 7 [.start [1] [] (some 7), .tick 5] ≤ 1 := by decide
